@@ -78,6 +78,7 @@ type Interp struct {
 	blobs   []*Blob
 	trace   bool
 	foreignErr map[*ssa.Global]bool
+	looseEq    bool
 }
 
 func (in *Interp) addPC(t *Term) {
